@@ -6,6 +6,8 @@ open WindVerif.Dll
 
 /-! ### dictionary lemmas -/
 
+namespace LfuRefine
+
 theorem lookup_none_iff (c : PyDict) (k : Key) : c.lookup k = none ↔ ∀ n, (k, n) ∉ c := by
   induction c with
   | nil => simp
@@ -62,6 +64,9 @@ theorem dictDel_length (c : PyDict) (k : Key) (n : Node) (hnd : (c.map (·.1)).N
 
 theorem dictSet_new (c : PyDict) (k : Key) (n : Node) (h : c.lookup k = none) : dictSet c k n = c ++ [(k, n)] := by
   simp [dictSet, h]
+
+end LfuRefine
+open LfuRefine
 
 /-! ### the invariant with its witness list made explicit -/
 
@@ -133,6 +138,8 @@ theorem congr {s' : Lfu} (g : s.Good l) (hc : s'.cap = s.cap) (hd : s'.dll = s.d
 end Lfu.Good
 
 /-! ### the abstract list: lookup, bump, insertBump -/
+
+namespace LfuRefine
 
 theorem lookup_map_none (f : Node → Key × Val × Nat) (l : List Node) (k : Key) (h : ∀ n ∈ l, (f n).1 ≠ k) :
     LfuSpec.lookup (l.map f) k = none := by
@@ -366,5 +373,364 @@ theorem incFreq_good {s : Lfu} {l1 l2 : List Node} {n : Node} (g : s.Good (l1 ++
     by_cases hxn : x = n
     · rw [hxn, hdn, he2]; omega
     · rw [hdo x hxn]; exact g.pos x ((hmem x).1 hx)
+
+/-! ### storing a new key: the new entry `(k, v, 1)` sits in the node at the front -/
+
+theorem good_front {s s' : Lfu} {h : Node} {tl : List Node} {c' : PyDict} {k : Key} {v : Val}
+    (cap_pos : 1 ≤ s'.cap) (rep : Rep s'.dll (h :: tl)) (len : tl.length + 1 ≤ s'.cap)
+    (hdata : s'.data = updD s.data h (k, v, 1)) (hcache : s'.cache = c' ++ [(k, h)])
+    (hkeys : (tl.map (fun n => (s.data n).1)).Nodup) (hk : ∀ x ∈ tl, (s.data x).1 ≠ k)
+    (hmem : ∀ k' x, (k', x) ∈ c' ↔ (x ∈ tl ∧ (s.data x).1 = k'))
+    (hclen : c'.length = tl.length) (sorted : (tl.map (fun n => (s.data n).2.2)).Pairwise (· ≤ ·))
+    (pos : ∀ x ∈ tl, 1 ≤ (s.data x).2.2) (hdict : (c'.map (·.1)).Nodup) :
+    s'.Good (h :: tl) ∧ (h :: tl).map s'.data = (k, v, 1) :: tl.map s.data := by
+  have hh : h ∉ tl := (List.nodup_cons.1 rep.nodup).1
+  have hdh : s'.data h = (k, v, 1) := by simp [hdata, updD]
+  have hdo : ∀ x ∈ tl, s'.data x = s.data x := by
+    intro x hx
+    have : x ≠ h := by rintro rfl; exact hh hx
+    simp [hdata, updD, this]
+  have hmap : (h :: tl).map s'.data = (k, v, 1) :: tl.map s.data := by
+    rw [List.map_cons, hdh, List.map_congr_left hdo]
+  have hmapk : (h :: tl).map (fun n => (s'.data n).1) = k :: tl.map (fun n => (s.data n).1) := by
+    rw [List.map_cons, hdh]
+    congr 1
+    exact List.map_congr_left (fun x hx => by rw [hdo x hx])
+  have hmapc : (h :: tl).map (fun n => (s'.data n).2.2) = 1 :: tl.map (fun n => (s.data n).2.2) := by
+    rw [List.map_cons, hdh]
+    congr 1
+    exact List.map_congr_left (fun x hx => by rw [hdo x hx])
+  refine ⟨⟨cap_pos, rep, by simpa using len, ?_, ?_, ?_, ?_, ?_, ?_⟩, hmap⟩
+  · rw [hmapk, List.nodup_cons]
+    refine ⟨?_, hkeys⟩
+    intro hx
+    obtain ⟨x, hx, he⟩ := List.mem_map.1 hx
+    exact hk x hx he
+  · intro k' x
+    rw [hcache, List.mem_append, hmem, List.mem_singleton, Prod.mk.injEq, List.mem_cons]
+    constructor
+    · rintro (⟨hx, he⟩ | ⟨rfl, rfl⟩)
+      · exact ⟨Or.inr hx, by rw [hdo x hx]; exact he⟩
+      · exact ⟨Or.inl rfl, by rw [hdh]⟩
+    · rintro ⟨rfl | hx, he⟩
+      · rw [hdh] at he
+        exact Or.inr ⟨he.symm, rfl⟩
+      · rw [hdo x hx] at he
+        exact Or.inl ⟨hx, he⟩
+  · rw [hcache]; simp [hclen]
+  · rw [hmapc, List.pairwise_cons]
+    refine ⟨?_, sorted⟩
+    intro a ha
+    obtain ⟨x, hx, rfl⟩ := List.mem_map.1 ha
+    exact pos x hx
+  · intro x hx
+    rcases List.mem_cons.1 hx with rfl | hx
+    · simp [hdh]
+    · rw [hdo x hx]; exact pos x hx
+  · rw [hcache, List.map_append, List.nodup_append]
+    refine ⟨hdict, by simp, ?_⟩
+    intro a ha b hb hab
+    simp only [List.map_cons, List.map_nil, List.mem_singleton] at hb
+    obtain ⟨q, hq, rfl⟩ := List.mem_map.1 ha
+    have := (hmem q.1 q.2).1 hq
+    exact hk q.2 this.1 (by rw [this.2, hab, hb])
+
+theorem set_full_good {s : Lfu} {h : Node} {tl : List Node} (g : s.Good (h :: tl)) (k : Key) (v : Val)
+    (hk : dictGet s.cache k = none) :
+    Lfu.Good { s with cache := dictSet (dictDel s.cache (s.data h).1) k h, data := updD s.data h (k, v, 1) }
+      (h :: tl) ∧
+    (h :: tl).map (updD s.data h (k, v, 1)) = (k, v, 1) :: tl.map s.data := by
+  have hkn := g.dictGet_none hk
+  have hkeys := g.keys
+  rw [List.map_cons, List.nodup_cons] at hkeys
+  have hne : ∀ x ∈ tl, (s.data x).1 ≠ (s.data h).1 := by
+    intro x hx he
+    exact hkeys.1 (List.mem_map.2 ⟨x, hx, he⟩)
+  have hlk : (dictDel s.cache (s.data h).1).lookup k = none := by
+    rw [lookup_none_iff]
+    intro n hn
+    rw [dictDel_mem, g.mem] at hn
+    exact hkn n hn.1.1 hn.1.2
+  refine good_front (s := s) (c' := dictDel s.cache (s.data h).1) g.cap_pos g.rep (by simpa using g.len) rfl
+    (dictSet_new _ _ _ hlk) hkeys.2 (fun x hx => hkn x (by simp [hx])) ?_ ?_ ?_ ?_ (dictDel_nodup _ _ g.dict)
+  · intro k' x
+    rw [dictDel_mem, g.mem]
+    constructor
+    · rintro ⟨⟨hx, he⟩, hne'⟩
+      rcases List.mem_cons.1 hx with rfl | hx
+      · exact absurd he.symm hne'
+      · exact ⟨hx, he⟩
+    · rintro ⟨hx, he⟩
+      exact ⟨⟨by simp [hx], he⟩, by rw [← he]; exact hne x hx⟩
+  · have := dictDel_length s.cache (s.data h).1 h g.dict ((g.mem _ _).2 ⟨by simp, rfl⟩)
+    have hc := g.clen
+    simp only [List.length_cons] at hc
+    omega
+  · exact (List.pairwise_cons.1 g.sorted).2
+  · exact fun x hx => g.pos x (by simp [hx])
+
+theorem set_new_good {s : Lfu} {l : List Node} (g : s.Good l) (k : Key) (v : Val)
+    (hk : dictGet s.cache k = none) (hlen : s.cache.length < s.cap) :
+    Lfu.Good { s with dll := (prepend s.dll).1, data := updD s.data s.dll.fresh (k, v, 1),
+                      cache := dictSet s.cache k s.dll.fresh } (s.dll.fresh :: l) ∧
+    (s.dll.fresh :: l).map (updD s.data s.dll.fresh (k, v, 1)) = (k, v, 1) :: l.map s.data := by
+  have hkn := g.dictGet_none hk
+  exact good_front (s := s) (c' := s.cache) g.cap_pos (repr_prepend g.rep) (by have := g.clen; simp only at *; omega) rfl
+    (dictSet_new _ _ _ hk) g.keys hkn g.mem g.clen g.sorted g.pos g.dict
+
+/-! ### deleting -/
+
+theorem without_map (f : Node → Key × Val × Nat) (l : List Node) (n : Node) (hn : n ∈ l)
+    (hnd : (l.map (fun x => (f x).1)).Nodup) :
+    LfuSpec.without (l.map f) (f n).1 = (l.erase n).map f := by
+  induction l with
+  | nil => simp at hn
+  | cons x xs ih =>
+    rw [List.map_cons, List.nodup_cons] at hnd
+    by_cases hx : x = n
+    · subst hx
+      rw [List.erase_cons_head]
+      have : ∀ e ∈ xs.map f, e.1 ≠ (f x).1 := by
+        intro e he h
+        obtain ⟨y, hy, rfl⟩ := List.mem_map.1 he
+        exact hnd.1 (List.mem_map.2 ⟨y, hy, h⟩)
+      simp only [LfuSpec.without, List.map_cons, List.filter_cons]
+      simp only [ne_eq, not_true_eq_false, decide_false, Bool.false_eq_true, ↓reduceIte]
+      apply List.filter_eq_self.2
+      intro e he
+      simpa using this e he
+    · have hn' : n ∈ xs := by
+        rcases List.mem_cons.1 hn with h | h
+        · exact absurd h.symm hx
+        · exact h
+      have hk : (f x).1 ≠ (f n).1 := by
+        intro h
+        exact hnd.1 (List.mem_map.2 ⟨n, hn', h.symm⟩)
+      have hbeq : (x == n) = false := by simpa using hx
+      rw [List.erase_cons, hbeq]
+      have h2 : LfuSpec.without (f x :: xs.map f) (f n).1 = f x :: LfuSpec.without (xs.map f) (f n).1 := by
+        simp [LfuSpec.without, hk]
+      rw [List.map_cons, h2, ih hn' hnd.2]
+      simp
+
+theorem del_good {s : Lfu} {l : List Node} {n : Node} (g : s.Good l) (hn : n ∈ l) :
+    Lfu.Good { s with cache := dictDel s.cache (s.data n).1, dll := remove s.dll n } (l.erase n) := by
+  have hsub : (l.erase n).Sublist l := List.erase_sublist
+  have hmemE : ∀ x, x ∈ l.erase n ↔ x ≠ n ∧ x ∈ l := fun x => g.rep.nodup.mem_erase_iff
+  refine ⟨g.cap_pos, rep_remove g.rep hn, Nat.le_trans hsub.length_le g.len, g.keys.sublist (hsub.map _), ?_, ?_,
+    g.sorted.sublist (hsub.map _), fun x hx => g.pos x (hsub.mem hx), dictDel_nodup _ _ g.dict⟩
+  · intro k x
+    show (k, x) ∈ dictDel s.cache (s.data n).1 ↔ _
+    rw [dictDel_mem, g.mem, hmemE]
+    constructor
+    · rintro ⟨⟨hx, he⟩, hne⟩
+      exact ⟨⟨by rintro rfl; exact hne he.symm, hx⟩, he⟩
+    · rintro ⟨⟨hne, hx⟩, he⟩
+      refine ⟨⟨hx, he⟩, ?_⟩
+      intro h
+      exact hne (g.key_inj hx hn (by rw [he, h]))
+  · show (dictDel s.cache (s.data n).1).length = _
+    have := dictDel_length s.cache (s.data n).1 n g.dict ((g.mem _ _).2 ⟨hn, rfl⟩)
+    have hc := g.clen
+    have := List.length_erase_of_mem hn
+    have hpos : 0 < l.length := List.length_pos_of_mem hn
+    omega
+
+/-! ### the branches of the concrete operations -/
+
+theorem set_eq_some {s : Lfu} {k : Key} {n : Node} (v : Val) (h : dictGet s.cache k = some n) :
+    Lfu.set s k v = .ok (Lfu.incFreq { s with data := updD s.data n ((s.data n).1, v, (s.data n).2.2) } n) := by
+  unfold Lfu.set
+  simp only [h]
+
+theorem set_eq_full {s : Lfu} {k : Key} {hd : Node} (v : Val) (h : dictGet s.cache k = none)
+    (hfull : s.cache.length ≥ s.cap) (hh : s.dll.head = some hd) (hg : dictGet s.cache (s.data hd).1 = some hd) :
+    Lfu.set s k v =
+      .ok { s with cache := dictSet (dictDel s.cache (s.data hd).1) k hd, data := updD s.data hd (k, v, 1) } := by
+  unfold Lfu.set
+  simp only [h, if_pos hfull, hh, hg]
+
+theorem set_eq_new {s : Lfu} {k : Key} (v : Val) (h : dictGet s.cache k = none) (hfull : ¬ s.cache.length ≥ s.cap) :
+    Lfu.set s k v =
+      .ok { s with dll := (prepend s.dll).1, data := updD s.data s.dll.fresh (k, v, 1),
+                   cache := dictSet s.cache k s.dll.fresh } := by
+  unfold Lfu.set
+  simp only [h, if_neg hfull]
+  rfl
+
+end LfuRefine
+
+theorem lfu_init (cap : Nat) (h : 1 ≤ cap) : Lfu.R cap (Lfu.new cap) [] := by
+  have g : (Lfu.new cap).Good [] :=
+    ⟨h, repr_empty, by simp, by simp, by simp [Lfu.new], rfl, by simp, by simp, by simp [Lfu.new]⟩
+  exact ⟨(Lfu.inv_iff _).2 ⟨[], g⟩, rfl, by rw [g.abs_eq]; rfl⟩
+
+namespace LfuRefine
+
+theorem R_of_good {s : Lfu} {l : List Node} (g : s.Good l) : Lfu.R s.cap s (l.map s.data) :=
+  ⟨(Lfu.inv_iff _).2 ⟨l, g⟩, rfl, g.abs_eq⟩
+
+theorem lfu_get_sim (cap : Nat) (s : Lfu) (t : LfuSpec.St) (k : Key) (hR : Lfu.R cap s t) :
+    RelRes (Lfu.R cap) s t (Lfu.get s k) (LfuSpec.get t k) := by
+  obtain ⟨hinv, hcap, habs⟩ := hR
+  obtain ⟨l, g⟩ := (Lfu.inv_iff s).1 hinv
+  have hR : Lfu.R cap s t := ⟨hinv, hcap, habs⟩
+  subst habs hcap
+  cases hd : dictGet s.cache k with
+  | none =>
+    have hlk : LfuSpec.lookup s.abs k = none := by
+      rw [g.abs_eq]; exact lookup_map_none _ _ _ (g.dictGet_none hd)
+    simp only [Lfu.get, hd, LfuSpec.get, hlk, RelRes]
+    exact ⟨trivial, hR⟩
+  | some n =>
+    obtain ⟨hn, hkn⟩ := g.dictGet_some hd
+    obtain ⟨l1, l2, rfl⟩ := List.append_of_mem hn
+    subst hkn
+    have sp := g.rep.split
+    have h1 : ∀ x ∈ l1, (s.data x).1 ≠ (s.data n).1 := by
+      intro x hx he
+      have := g.key_inj (by simp [hx]) hn he
+      exact sp.n1 (this ▸ hx)
+    have hlk := lookup_map_some s.data l1 l2 n h1
+    obtain ⟨l', g', hmap, hdn, hc⟩ := incFreq_good g
+    have hb := bump_map s.data none l1 l2 n h1
+    simp only [Option.getD_none] at hb
+    rw [g.abs_eq]
+    simp only [Lfu.get, hd, LfuSpec.get, hlk, RelRes, hb, hdn, and_true]
+    rw [← hmap, ← hc]
+    exact R_of_good g'
+
+theorem lfu_set_sim (cap : Nat) (s : Lfu) (t : LfuSpec.St) (k : Key) (v : Val) (hR : Lfu.R cap s t) :
+    RelSt (Lfu.R cap) s t (Lfu.set s k v) (LfuSpec.set cap t k v) := by
+  obtain ⟨hinv, hcap, habs⟩ := hR
+  obtain ⟨l, g⟩ := (Lfu.inv_iff s).1 hinv
+  subst habs hcap
+  cases hd : dictGet s.cache k with
+  | some n =>
+    obtain ⟨hn, hkn⟩ := g.dictGet_some hd
+    obtain ⟨l1, l2, rfl⟩ := List.append_of_mem hn
+    subst hkn
+    have sp := g.rep.split
+    have h1 : ∀ x ∈ l1, (s.data x).1 ≠ (s.data n).1 := by
+      intro x hx he
+      have := g.key_inj (by simp [hx]) hn he
+      exact sp.n1 (this ▸ hx)
+    have hlk := lookup_map_some s.data l1 l2 n h1
+    have hb := bump_map s.data (some v) l1 l2 n h1
+    simp only [Option.getD_some] at hb
+    rw [set_eq_some v hd, g.abs_eq]
+    simp only [LfuSpec.set, hlk, Option.isSome_some, if_true, RelSt, hb]
+    -- the state with the value stored
+    generalize hs1 : ({ s with data := updD s.data n ((s.data n).1, v, (s.data n).2.2) } : Lfu) = s1
+    have hd1 : s1.data = updD s.data n ((s.data n).1, v, (s.data n).2.2) := by rw [← hs1]
+    have hdn1 : s1.data n = ((s.data n).1, v, (s.data n).2.2) := by simp [hd1, updD]
+    have hdo1 : ∀ x, x ≠ n → s1.data x = s.data x := by intro x hx; simp [hd1, updD, hx]
+    have g1 : s1.Good (l1 ++ n :: l2) := by
+      refine g.congr (by rw [← hs1]) (by rw [← hs1]) (by rw [← hs1]) ?_ ?_
+      · intro x; by_cases hx : x = n
+        · rw [hx, hdn1]
+        · rw [hdo1 x hx]
+      · intro x; by_cases hx : x = n
+        · rw [hx, hdn1]
+        · rw [hdo1 x hx]
+    obtain ⟨l', g', hmap, _, hc⟩ := incFreq_good g1
+    have e1 : l1.map s1.data = l1.map s.data :=
+      List.map_congr_left (fun x hx => hdo1 x (by rintro rfl; exact sp.n1 hx))
+    have e2 : l2.map s1.data = l2.map s.data :=
+      List.map_congr_left (fun x hx => hdo1 x (by rintro rfl; exact sp.n2 hx))
+    rw [e1, e2, hdn1] at hmap
+    simp only at hmap
+    rw [← hmap]
+    have hc' : (Lfu.incFreq s1 n).cap = s.cap := by rw [hc, ← hs1]
+    rw [← hc']
+    exact R_of_good g'
+  | none =>
+    have hlk : LfuSpec.lookup s.abs k = none := by
+      rw [g.abs_eq]; exact lookup_map_none _ _ _ (g.dictGet_none hd)
+    by_cases hfull : s.cache.length ≥ s.cap
+    · cases l with
+      | nil =>
+        have := g.clen
+        have := g.cap_pos
+        simp only [List.length_nil] at *
+        omega
+      | cons h tl =>
+        have hh : s.dll.head = some h := by rw [g.rep.head]; rfl
+        have hg := g.dictGet_of_mem (n := h) (by simp)
+        obtain ⟨g', hmap⟩ := set_full_good g k v hd
+        have hlen : (h :: tl).length ≥ s.cap := by rw [← g.clen]; exact hfull
+        rw [g.abs_eq] at hlk
+        rw [set_eq_full v hd hfull hh hg, g.abs_eq]
+        simp only [List.map_cons] at hlk
+        simp only [List.length_cons] at hlen
+        simp only [LfuSpec.set, List.map_cons, hlk, Option.isSome_none, Bool.false_eq_true, if_false, List.length_map,
+          List.length_cons, if_pos hlen, RelSt]
+        have := R_of_good g'
+        rw [hmap] at this
+        exact this
+    · obtain ⟨g', hmap⟩ := set_new_good g k v hd (by omega)
+      have hlen : ¬ l.length ≥ s.cap := by rw [← g.clen]; exact hfull
+      rw [g.abs_eq] at hlk
+      rw [set_eq_new v hd hfull, g.abs_eq]
+      simp only [LfuSpec.set, hlk, Option.isSome_none, Bool.false_eq_true, if_false, List.length_map,
+        if_neg hlen, RelSt]
+      have := R_of_good g'
+      rw [hmap] at this
+      exact this
+
+theorem lfu_del_sim (cap : Nat) (s : Lfu) (t : LfuSpec.St) (k : Key) (hR : Lfu.R cap s t) :
+    RelSt (Lfu.R cap) s t (Lfu.del s k) (LfuSpec.del t k) := by
+  obtain ⟨hinv, hcap, habs⟩ := hR
+  obtain ⟨l, g⟩ := (Lfu.inv_iff s).1 hinv
+  have hR : Lfu.R cap s t := ⟨hinv, hcap, habs⟩
+  subst habs hcap
+  cases hd : dictGet s.cache k with
+  | none =>
+    have hlk : LfuSpec.lookup s.abs k = none := by
+      rw [g.abs_eq]; exact lookup_map_none _ _ _ (g.dictGet_none hd)
+    simp only [Lfu.del, hd, LfuSpec.del, hlk, RelSt]
+    exact ⟨rfl, hR⟩
+  | some n =>
+    obtain ⟨hn, hkn⟩ := g.dictGet_some hd
+    subst hkn
+    have hw := without_map s.data l n hn g.keys
+    obtain ⟨l1, l2, rfl⟩ := List.append_of_mem hn
+    have sp := g.rep.split
+    have h1 : ∀ x ∈ l1, (s.data x).1 ≠ (s.data n).1 := by
+      intro x hx he
+      have := g.key_inj (by simp [hx]) hn he
+      exact sp.n1 (this ▸ hx)
+    have hlk := lookup_map_some s.data l1 l2 n h1
+    rw [g.abs_eq]
+    simp only [Lfu.del, hd, LfuSpec.del, hlk, Option.isSome_some, if_true, RelSt, hw]
+    exact R_of_good (del_good g hn)
+
+end LfuRefine
+
+theorem lfu_sim (cap : Nat) : Sim lfuPrim (LfuSpec.prim cap) (Lfu.R cap) := by
+  refine ⟨lfu_get_sim cap, lfu_set_sim cap, lfu_del_sim cap, ?_, ?_⟩
+  · rintro s t ⟨hinv, hcap, habs⟩
+    obtain ⟨l, g⟩ := (Lfu.inv_iff s).1 hinv
+    subst habs
+    show Lfu.keys s = s.abs.map (·.1)
+    rw [Lfu.keys, g.nodes_eq, g.abs_eq, List.map_map]
+    rfl
+  · rintro s t ⟨hinv, hcap, habs⟩
+    obtain ⟨l, g⟩ := (Lfu.inv_iff s).1 hinv
+    subst habs
+    show s.cache.length = s.abs.length
+    rw [g.abs_eq, g.clen, List.length_map]
+
+theorem lfu_R_wf (cap : Nat) (s : Lfu) (t : LfuSpec.St) (h : Lfu.R cap s t) : LfuSpec.Wf cap t ∧ 1 ≤ cap := by
+  obtain ⟨hinv, hcap, habs⟩ := h
+  obtain ⟨l, g⟩ := (Lfu.inv_iff s).1 hinv
+  subst habs hcap
+  rw [g.abs_eq]
+  refine ⟨⟨?_, by simpa using g.len, ?_, ?_⟩, g.cap_pos⟩
+  · rw [List.map_map]; exact g.keys
+  · rw [List.map_map]; exact g.sorted
+  · intro e he
+    obtain ⟨x, hx, rfl⟩ := List.mem_map.1 he
+    exact g.pos x hx
 
 end WindVerif.Cache
